@@ -15,7 +15,7 @@ From ClapModel Require Import Base.Bytes Base.Machine Base.Utf8 Lex.OsStrExtMode
 From ClapModel Require Import Parse.Cmd Parse.Build Parse.Valid Parse.Matcher Parse.Errors Parse.Validator Parse.Parser.
 From ClapModel Require Import ParseProofs.Actions ParseProofs.ActionsLoop ParseProofs.Spelling ParseProofs.Escape
                               ParseProofs.Unparse ParseProofs.UnparseProofs ParseProofs.UnparseTrail
-                              ParseProofs.UnparseX ParseProofs.UnparseXProofs.
+                              ParseProofs.UnparseX ParseProofs.UnparseXProofs ParseProofs.LoopStep.
 From Coq Require Import ZArith Lia List Bool.
 From RecordUpdate Require Import RecordSet.
 Import RecordSetNotations.
@@ -78,7 +78,111 @@ Definition wfx_tva (pos : N) (vs : list bytes) : bool :=
       end
   end.
 
+(** the run of a multi-valued positional that takes HYPHEN VALUES: the first value is a value token or a token the
+    parser hands back as a possible hyphen value ([hyphen_tok]); while the run is open EVERY later token of the line --
+    [--], known flags, subcommand names -- is a value of the same occurrence *)
+Definition wfx_hyp (pos : N) (vs : list bytes) : bool :=
+  match vs with
+  | [] => false
+  | v :: t =>
+      match get_pos c pos with
+      | Some a => a_hyphen a && negb (a_last a) && negb (a_tva a) && a_multiple_values a
+                  && nosub c v && (value_ok v || hyphen_tok c pos v) && forallb (no_term a) (v :: t)
+      | None => false
+      end
+  end.
+
 Hypothesis Hx : convx c = true.
+
+(** any token while the run of a hyphen-valued positional is open *)
+Lemma hyp_more_tok (w : bytes) (rest : list bytes) pos vaf st a :
+  get_pos c pos = Some a -> a_hyphen a = true -> a_last a = false -> a_tva a = false -> check_terminator a w = false ->
+  parse_loop c (w :: rest) (mkL (PSPos (a_id a)) pos vaf false) st = pos_step_k c a w rest pos st.
+Proof.
+  intros Hg Hh Hlast Htva Hterm. pose proof (get_pos_in c pos a Hg) as Ha. pose proof (find_arg_self_x c Hx a Ha) as FA.
+  pose proof (convx_sp c Hx) as Hsp.
+  assert (SA : state_arg c (PSPos (a_id a)) = ROk (Some a)) by (cbn [state_arg]; rewrite FA; reflexivity).
+  rewrite parse_loop_step.
+  assert (TAIL : forall vaf1,
+    (do p1 <- ROk (@None (res loop_res), mkL (PSPos (a_id a)) pos vaf1 false, st);
+     let '(early, ls, st) := p1 in
+     match early with Some r => r | None => phase2 c (parse_loop c rest) w rest ls st end) = pos_step_k c a w rest pos st).
+  { intros vaf1. cbn [rbind]. unfold phase2. cbn [l_trailing l_pst]. unfold pos_part.
+    rewrite (convx_low_all c Hx pos vaf1 rest (PSPos (a_id a))). cbn [rbind]. cbn [l_trailing l_pst l_vaf l_pos].
+    rewrite Hg, Hlast, Htva. cbn [andb orb]. rewrite Hterm. unfold pos_step_k. reflexivity. }
+  unfold phase1. cbn [l_trailing l_pst l_vaf l_pos]. rewrite Hsp. cbn [orb].
+  destruct (is_escape w).
+  - rewrite SA. cbn [rbind]. rewrite Hh. exact (TAIL vaf).
+  - destruct (to_long w) as [[[f ok] lv]|].
+    + assert (PL : parse_long_arg c f ok lv (PSPos (a_id a)) pos vaf st = ROk (st, PRMaybeHyphen, vaf)).
+      { unfold parse_long_arg. rewrite SA. cbn [rbind]. rewrite Hh. reflexivity. }
+      rewrite PL. cbn [rbind fst snd]. unfold after_flag. cbn [l_pst l_pos]. exact (TAIL vaf).
+    + destruct (to_short w) as [r|].
+      * assert (PS : parse_short_arg c r (PSPos (a_id a)) pos vaf st = ROk (st, PRMaybeHyphen, vaf)).
+        { unfold parse_short_arg. rewrite SA. cbn [rbind]. rewrite Hh. reflexivity. }
+        rewrite PS. cbn [rbind fst snd]. unfold after_flag. cbn [l_pst l_pos]. exact (TAIL vaf).
+      * exact (TAIL vaf).
+Qed.
+
+Lemma loop_hyp_values a pos st : get_pos c pos = Some a -> a_hyphen a = true -> a_last a = false -> a_tva a = false ->
+  a_multiple_values a = true ->
+  forall (vs vs0 : list bytes), forallb (no_term a) vs = true ->
+  parse_loop c vs (mkL (PSPos (a_id a)) pos true false) (set_pending (a_id a) IIndex vs0 st) =
+  ROk (LDone (set_pending (a_id a) IIndex (vs0 ++ vs) st)).
+Proof.
+  intros Hg Hh Hlast Htva Hm. induction vs as [|v vs IH]; intros vs0 Hts.
+  - rewrite app_nil_r. reflexivity.
+  - cbn [forallb] in Hts. apply andb_prop in Hts. destruct Hts as [Ht Hts].
+    assert (Ht' : check_terminator a v = false) by (unfold no_term in Ht; destruct (check_terminator a v); [discriminate|reflexivity]).
+    rewrite (hyp_more_tok v vs pos true _ a Hg Hh Hlast Htva Ht').
+    rewrite (pos_more c v vs pos st a vs0 Hm). rewrite (IH (vs0 ++ [v]) Hts). rewrite <- app_assoc. reflexivity.
+Qed.
+
+Theorem loop_hyp : forall (vs : list bytes) pos vaf st, wfx_hyp pos vs = true -> pend_inv c PSValuesDone st ->
+  parse_loop c vs (mkL PSValuesDone pos vaf false) st = (do s' <- apply_item c pos (ItPos vs) st; ROk (LDone s')).
+Proof.
+  intros vs pos vaf st Hw Hi. destruct vs as [|v vs]; [discriminate Hw|]. cbn [wfx_hyp] in Hw.
+  destruct (get_pos c pos) as [a|] eqn:Hg; [|discriminate].
+  apply andb_prop in Hw. destruct Hw as [Hw Hts]. apply andb_prop in Hw. destruct Hw as [Hw Hv]. apply andb_prop in Hw. destruct Hw as [Hw Hn].
+  apply andb_prop in Hw. destruct Hw as [Hw Hm]. apply andb_prop in Hw. destruct Hw as [Hw Htva]. apply andb_prop in Hw. destruct Hw as [Hh Hlast].
+  apply negb_true_iff in Htva. apply negb_true_iff in Hlast.
+  cbn [forallb] in Hts. apply andb_prop in Hts. destruct Hts as [Ht Hts].
+  assert (Ht' : check_terminator a v = false) by (unfold no_term in Ht; destruct (check_terminator a v); [discriminate|reflexivity]).
+  assert (E1 : parse_loop c (v :: vs) (mkL PSValuesDone pos vaf false) st = pos_step_k c a v vs pos st).
+  { apply orb_prop in Hv. destruct Hv as [Hv|Hv].
+    - apply (pos_branch_x c Hx v vs PSValuesDone pos vaf st a I Hn Hv Hg Ht' Hlast Htva).
+    - apply (pos_branch_h c Hx v vs pos vaf st a Hn Hv Hg (convx_low_all c Hx pos) Ht' Hlast Htva). }
+  rewrite E1. rewrite (pos_first_x c Hx v vs PSValuesDone pos st a Hg I Hi).
+  assert (Hmul : a_is_multiple a = true) by (unfold a_is_multiple; rewrite Hm; reflexivity).
+  rewrite Hmul. cbn [apply_item]. rewrite Hg. unfold sep_step.
+  destruct (resolve_pending c st) as [s1|e s|n]; cbn [rbind]; try reflexivity.
+  rewrite (loop_hyp_values a pos s1 Hg Hh Hlast Htva Hm vs [v] Hts). reflexivity.
+Qed.
+
+Lemma wfx_hyp_pos pos vs : wfx_hyp pos vs = true -> exists a, get_pos c pos = Some a.
+Proof. destruct vs as [|v t]; [discriminate|]. cbn [wfx_hyp]. destruct (get_pos c pos) as [a|]; [exists a; reflexivity|discriminate]. Qed.
+
+(** flushing: items, then one more occurrence with separate values *)
+Lemma flush_items_then_sep {B} its a (vs : list bytes) (K : ps -> res B) : wfx_items c PSValuesDone 1 its = true -> In a (c_args c) ->
+  (do st' <- apply_items c 1 its ps_new; do st1 <- sep_step c IIndex a vs st'; do st2 <- resolve_pending c st1; K st2) =
+  (do st2 <- react_all c (occs c 1 its ++ [occ_of IIndex a vs]) ps_new; K st2).
+Proof.
+  intros Hw Ha.
+  set (KK := fun s0 : ps => do x <- react_core c (Some IIndex) SCmdLine a vs None s0; K (fst x)).
+  assert (E1 : forall st', (do st1 <- sep_step c IIndex a vs st'; do st2 <- resolve_pending c st1; K st2) =
+                           (do s0 <- resolve_pending c st'; KK s0)).
+  { intros st'. rewrite (sep_flush_x c Hx IIndex a vs st' K Ha). unfold react. apply rbind_assoc. }
+  etransitivity; [apply rbind_ext; intros st' _; apply E1|].
+  etransitivity; [symmetry; apply (rbind_assoc (apply_items c 1 its ps_new) (resolve_pending c) KK)|].
+  pose proof (flush_items_x c Hx its PSValuesDone 1 ps_new Hw) as F.
+  cbn [resolve_pending ps_new mt matcher_new mt_pending rbind] in F. change (mkPs matcher_new 0 None 0) with ps_new in F.
+  rewrite F. rewrite react_all_app.
+  pose proof (flush_react_all c (occs c 1 its) ps_new KK) as G.
+  cbn [resolve_pending ps_new mt matcher_new mt_pending rbind] in G. change (mkPs matcher_new 0 None 0) with ps_new in G.
+  rewrite <- G. rewrite rbind_assoc. apply rbind_ext. intros s1 _.
+  cbn [react_all occ_of o_ident o_src o_arg o_raw o_ti]. unfold react, KK. rewrite !rbind_assoc. apply rbind_ext. intros s0 _.
+  apply rbind_ext. intros x _. reflexivity.
+Qed.
 
 Lemma trail_branch_x (v : bytes) (rest : list bytes) pst pos vaf st a :
   get_pos c (sink_index c pos) = Some a -> check_terminator a v = false ->
